@@ -14,7 +14,7 @@ func init() {
 	register(&PropDoc{
 		ID:         "C20",
 		Modules:    dirs,
-		NotDecided: "the full source cross-product as behaviour; header and compression value parsing; TLS settings; hangs (only the panicking sinks and ticker intervals are covered).",
+		NotDecided: "the full source cross-product as behaviour; header value parsing, the compression value table (decided: a present variable always reaches its setter); TLS settings; hangs (only the panicking sinks and ticker intervals are covered).",
 		Fn:         c20,
 	})
 }
